@@ -51,6 +51,8 @@ static int mmd3_test(HIO_HANDLE *f, char *t, const int start)
 		hio_seek(f, start + offset + 44, SEEK_SET);
 		offset = hio_read32b(f);
 		len = hio_read32b(f);
+		if (len > XMP_NAME_SIZE - 1)	/* the loader takes an oversized length as "as much as fits" */
+			len = XMP_NAME_SIZE - 1;
 		hio_seek(f, start + offset, SEEK_SET);
 		libxmp_read_title(f, t, len);
 	} else {
